@@ -97,22 +97,32 @@ theorem no_decomp_below_13 : ∀ j, j < 13 → ¬ HasDecomp inp j := by
 
 theorem min_is_13 : IsMinDecomp inp 13 := ⟨hasDecomp13, no_decomp_below_13⟩
 
-/-- **negative witness (finding C03-search-range-ignores-constraints).** On this input a decomposition
-exists (minimum 13 paths) but `|E| = 12`: whatever the lower bound, a search over `range(lo, |E| + 1)`
-with a truthful solver ends without an answer. -/
-theorem range_too_small (σ : Nat → Status) (hf : Faithful inp σ) (lo : Nat) :
+/-- **negative witness for the range before fix e0ac661.** On this input a decomposition exists
+(minimum 13 paths) but `|E| = 12`: whatever the lower bound, a search over `range(lo, |E| + 1)` with a
+truthful solver ends without an answer. -/
+theorem range_too_small_pre (σ : Nat → Status) (hf : Faithful inp σ) (lo : Nat) :
     base.edges.length = 12 ∧ IsMinDecomp inp 13 ∧
-      (stopSearch σ lo (searchHi base.edges.length)).solved = none := by
+      (stopSearch σ lo (searchHiPre base.edges.length)).solved = none := by
   refine ⟨by decide, min_is_13, ?_⟩
-  cases hs : (stopSearch σ lo (searchHi base.edges.length)).solved with
+  cases hs : (stopSearch σ lo (searchHiPre base.edges.length)).solved with
   | none => rfl
   | some k =>
     exfalso
     obtain ⟨h1, h2, h3, _⟩ := stopLoop_sound σ _ _ _ _ hs
-    have hE : searchHi base.edges.length = 13 := by decide
+    have hE : searchHiPre base.edges.length = 13 := by decide
     rw [hE] at h3
     have hk : k < 13 := by omega
     exact no_decomp_below_13 k hk
       ((kfd_feasible_iff_proof inp k base_wf base_acyclic plain).1 ((hf k).1 h1))
+
+/-- **regression (fix e0ac661).** With `range(lo, |E| + #constraints + 1)` the minimum 13 of this input
+is inside the range, and a solver that always finishes makes the search return it for every `lo ≤ 13`. -/
+theorem range_now_sufficient (σ : Nat → Status) (hd : Decisive inp σ) (lo : Nat) (hlo : lo ≤ 13) :
+    searchHi base.edges.length inp.cfg.constraints.length = 26 ∧
+      (stopSearch σ lo (searchHi base.edges.length inp.cfg.constraints.length)).solved = some 13 := by
+  have hE : searchHi base.edges.length inp.cfg.constraints.length = 26 := by decide +kernel
+  refine ⟨hE, ?_⟩
+  rw [hE]
+  exact mfd_search_finds_proof inp base_wf base_acyclic plain σ hd lo 26 13 min_is_13 hlo (by omega)
 
 end FP.DecompManyPaths
